@@ -99,10 +99,13 @@ type PartialCert struct {
 // NewPartialCert returns a new partial certificate.
 func NewPartialCert(signature QuorumSignature, blockHash Hash) PartialCert {
 	var signer ID
-	signature.Participants().RangeWhile(func(i ID) bool {
-		signer = i
-		return false
-	})
+	// a nil signature (e.g., from a malformed message) has no signer and will fail verification.
+	if signature != nil {
+		signature.Participants().RangeWhile(func(i ID) bool {
+			signer = i
+			return false
+		})
+	}
 	return PartialCert{signer, signature, blockHash}
 }
 
